@@ -80,11 +80,11 @@ class Patches:
 
         indexing = self.base.indexing
 
+        # NOTE: Use integer arithmetic on the voxel counts. Converting the metric patch
+        # dimensions to voxels is prone to round-off, which may add a voxel to each
+        # patch and leave trailing patches empty.
         patch_dimensions_voxels = [
-            self.base.coordinatesystem.num_voxels(
-                length=patch_dimensions_metric[i],
-                axis=darsia.to_cartesian_indexing(i, indexing),
-            )
+            -(-self.base.num_voxels[i] // self.num_patches[i])
             for i in range(self.num_active_spatial_axes)
         ]
 
